@@ -200,6 +200,8 @@ def run(w: World, rep: Report):
                       file=RELP, why='' if ok else 'recursive call on something other than bytes read from this tape')
         # R5 / R6 formatters
         _formatters(w, rep, cfg, kinds, armtag, names, arm_body, reads, tape_var, comp_domains, fi.name)
+        # R5b: the listing of an arm is emitted on every path
+        _emission(w, rep, armtag, names, arm_body)
     missing = sorted(set(vm_shapes) - seen_ops)
     rep.check('C12.R4', 'parsing.decompile_script|all-ops-covered', not missing and 'NOP' in seen_ops, file=RELP,
               why='' if not missing else f'ops without a decompiler arm: {missing}')
@@ -395,6 +397,46 @@ def _formatters(w, rep, cfg, kinds, armtag, names, body, reads, tape_var, comp_d
         else:
             rep.check('C12.R5', tag, False, line=r.line, file=RELP,
                       why='operand bytes are read but never reach the listing')
+
+
+def _emission(w, rep, armtag, names, body):
+    """Every add_line / extend of an arm is unconditional.  The one enumerated exception: the
+    EXCEPT part of OP_TRY_EXCEPT may be skipped when its listing is empty, because parse_try
+    re-creates the empty except block (checked: it appends a zero length when no EXCEPT was
+    parsed).  A conditional `} ELSE {` would make the compiler choose OP_IF instead of
+    OP_IF_ELSE."""
+    conds = []
+
+    def rec(stmts, under):
+        for st in stmts:
+            if isinstance(st, ast.If):
+                rec(st.body, under + [st.test])
+                rec(st.orelse, under + [st.test])
+            elif isinstance(st, (ast.For, ast.While, ast.Try)):
+                rec(getattr(st, 'body', []), under + [st])
+            else:
+                emits = [x for x in ast.walk(st) if isinstance(x, ast.Call) and (
+                    (isinstance(x.func, ast.Name) and x.func.id in ('add_line', 'add_lines')) or
+                    (isinstance(x.func, ast.Attribute) and x.func.attr in ('extend', 'append')
+                     and dotted(x.func.value) == 'code_lines'))]
+                if emits and under:
+                    conds.append((under, emits[0]))
+    rec(body, [])
+    ok, why = True, ''
+    for under, emit in conds:
+        allowed = False
+        if names == ['OP_TRY_EXCEPT'] and len(under) == 1 and isinstance(under[0], ast.Name):
+            # the compiler side of the idiom
+            pt = w.repo.func('parsing', 'parse_try')
+            txt = ast.unparse(pt.node).replace(' ', '')
+            if 'ifexcept_len==0:' in txt and "code+=except_len.to_bytes(2,'big')" in txt:
+                allowed = True
+        if not allowed:
+            ok = False
+            why = (f'`{ast.unparse(emit)[:40]}` is emitted only under a condition: on the other path operand bytes that '
+                   f'were read do not reach the listing and recompiling yields different bytes')
+    rep.check('C12.R5', f'parsing.decompile_script|case {armtag}|emission-unconditional', ok,
+              line=conds[0][1].lineno if conds else None, file=RELP, why=why, trivial=not conds)
 
 
 def _fmt_of(e, call, var) -> str:
